@@ -1,3 +1,4 @@
+import PncModel.Generated.ArlHeaders
 import PncProofs.ArlLemmas
 
 /-!
@@ -137,5 +138,14 @@ theorem layout_size (ncell nt nrec : Nat) :
     Arl.fileBytes ncell nt nrec = (nt * (1 + nrec)) * (50 + ncell) := by
   unfold Arl.fileBytes Arl.recl
   rw [Nat.mul_assoc]
+
+/-- **tie to the source** (regenerated from `thdtype` / `vhdtype` of noaafiles/_arl.py on every run): the label in front
+of every record is 50 bytes (10 + 2 + 2 + 4 + 4 + 14 + 14), label and fixed header of the index record are 158, and the
+model's record length is label + one byte per cell -/
+theorem label_matches_source :
+    Generated.arlLabelBytes = some 50 ∧ Generated.arlIndexBytes = some 158 ∧ Generated.arlLabelWidths = [10, 2, 2, 4, 4, 14, 14] ∧
+    ∀ n, Arl.recl n = Generated.arlLabelBytes.getD 0 + n := by
+  refine ⟨by decide, by decide, by decide, fun n => ?_⟩
+  simp [Arl.recl, Generated.arlLabelBytes]
 
 end Props.C20
